@@ -30,8 +30,8 @@ def gen_case(rng, tier, idx):
     if idx % 32 == 31:
         return gen_size_case(rng, tier)
     for _ in range(30):
-        prog, g = gen.list_program(rng)
-        hist = gen.list_history(g, prog, ncalls=rng.randint(3, 6))
+        prog, g = gen.list_program(rng, dyn_fe=True)
+        hist = gen.list_history(g, prog, ncalls=rng.randint(3, 6), obj_edits=True)
         prog = {k: v for k, v in prog.items() if not k.startswith("_")}
         try:
             gen.validate(prog)
